@@ -298,7 +298,7 @@ class _FilePersistence(_ConcretePersistence):
                     self._process_lines(data_file, current_runs, None)
         except IOError:
             self.ui.debug_error_info("No data loaded, since %s does not exist.\n"
-                                      % self._data_filename)
+                                      % escape_braces(self._data_filename))
         return self._start_time
 
     def _process_lines(self, data_file, runs, filtered_data_file):
@@ -370,10 +370,10 @@ class _FilePersistence(_ConcretePersistence):
                 # a line that cannot be read is not a measurement of a selected run: it is kept
                 if filtered_data_file:
                     filtered_data_file.write(line)
-                msg = str(err)
+                msg = escape_braces(str(err))
                 if not errors:
                     self.ui.debug_error_info("Failed loading data from data file: "
-                                              + self._data_filename + "\n")
+                                              + escape_braces(self._data_filename) + "\n")
                 if msg not in errors:
                     # Configuration is not available, skip data point
                     self.ui.debug_error_info("{ind}" + msg + "\n")
@@ -438,7 +438,7 @@ class _FilePersistence(_ConcretePersistence):
         except Exception as err:  # pylint: disable=broad-except
             raise UIError(
                 "Error: Was not able to open data file for writing.\n{ind}%s\n%s\n" % (
-                    os.getcwd(), err),
+                    escape_braces(os.getcwd()), escape_braces(str(err))),
                 err)
 
     def _ensure_benchark_is_persisted(self, benchmark: Benchmark) -> int:
